@@ -188,11 +188,39 @@ def g_to_mef(tier, rnd):
                             yield 'FlowCal.transform.to_mef', x
 
 
+def g_to_rfi(tier, rnd):
+    shapes = [(3, 2), (3, 3)] if tier == 'quick' else [(2, 1), (3, 2), (3, 3), (2, 4)]
+    ats = [None, [0.0, 0.0], [4.0, 1.0], [4.5, 0.5], [2.0, 10.0]]
+    for cont in ('ndarray', 'FCSData'):
+        for (N, D) in shapes:
+            names = NAMES[:D]
+            spell = [lambda c: c, lambda c: c - D] + ([lambda c: names[c]] if cont == 'FCSData' else [])
+            reqs = [None, 0, D - 1] + [list(p) for r in range(1, D + 1) for p in itertools.permutations(range(D), r)]
+            for rq in reqs:
+                for sp in spell:
+                    for form in ('none', 'given', 'given', 'badlen', 'noniter'):
+                        w = {'container': cont, 'ndim': 2, 'data': matrix(rnd, N, D), 'shape': [N, D]}
+                        if cont == 'FCSData':
+                            w['meta'] = meta_for(rnd, D, True)
+                            w['meta']['amplification_type'] = [rnd.choice(ats[1:]) for _ in range(D)]
+                        elif form == 'none':
+                            continue
+                        n = 1 if not isinstance(rq, list) and rq is not None else (D if rq is None else len(rq))
+                        if form in ('badlen', 'noniter') and not (isinstance(rq, list) or rq is None):
+                            continue
+                        ents = [{'at': rnd.choice(ats if cont == 'FCSData' else ats[1:]), 'ag': rnd.choice([None, 2.0, 0.5]),
+                                 'r': rnd.choice([None, 1024, 1000] if cont == 'FCSData' else [1024, 256])} for _ in range(n)]
+                        w.update({'channels': None if rq is None else ([sp(c) for c in rq] if isinstance(rq, list) else sp(rq)),
+                                  'ov_form': form, 'entries': ents if form != 'none' else None, 'which': rnd.randrange(3)})
+                        yield 'FlowCal.transform.to_rfi', w
+
+
 GENS = {
     'C08': [('start_end', g_start_end), ('high_low', g_high_low), ('ellipse', g_ellipse)],
     'C04': [('getitem', g_getitem), ('setitem', g_setitem)],
     'C20': [('finalize', g_finalize), ('file_eq', g_file_eq)],
     'C06': [('to_mef', g_to_mef)],
+    'C03': [('to_rfi', g_to_rfi)],
 }
 
 BOUNDS = {
@@ -204,6 +232,10 @@ BOUNDS = {
     'C06': 'D<=3 (quick) / 4 (thorough): every ordered subset of columns as sc_channels, every ordered request of <=2 columns, by '
            'position and by name, curve count = len(sc_channels) and +-1',
 }
+
+
+BOUNDS['C03'] = ('D<=3 (quick) / 4 (thorough): every ordered subset of columns by position, negative position and name; overrides '
+                 'absent / per-entry optional (amplification type, gain, resolution drawn from small sets) / wrong length / non-iterable')
 
 
 def generators(pid):
